@@ -78,7 +78,7 @@ def gen_env(r):
             # bottom-up one (setarch -L), or the default with another stack limit, which moves the base of every mapping -- shared
             # libraries and the simulated heap with it
             "layout": r.pick([0, 0, 1, 2, 3]),
-            "stdout_kind": r.pick(["pipe", "pipe", "file", "null", "fileoffset", "fileappend"]),   # what descriptor 1 is: a pipe, a regular file, the null device
+            "stdout_kind": r.pick(["pipe", "pipe", "file", "null", "null", "fileoffset", "fileappend"]),   # what descriptor 1 is: a pipe, a regular file, the null device
             "closefd": r.pick([None, None, None, None, 2, 2, 0]),   # a standard descriptor that is closed when the compiler starts (cron- and daemon-style launchers)
             "envfuzz": r.range(1, 1 << 30),    # answers to getenv() calls of the compiler itself (none in the unchanged tree)
             # bytes of old content in the output and dependency files before the run; -1: what an earlier, slightly different build left there
@@ -553,7 +553,7 @@ def list_inputs(src):
     return own, tests
 
 
-OPTION_SETS = [["-S", "-o-stdout"], ["-S", "-o-stdout", "-fPIC"], ["-E", "-o-stdout"], ["-xc-stdin", "-S"], ["-xc-stdin", "-E"], ["-xc-stdin", "-c"], ["-###"], ["-###", "-c"], [], ["-###", "-static"], ["-###", "-shared", "-fPIC"], ["-###", "-L.", "-lm", "-Wl,--as-needed,-z,now", "-Xlinker", "--no-undefined", "-s"],
+OPTION_SETS = [["-S", "-o-stdout"], ["-S", "-o-stdout", "-fPIC"], ["-E", "-o-stdout"], ["-S", "-o-stdout", "-g"], ["-S", "-o-stdout", "-fno-common"], ["-S", "-o-stdout"], ["-xc-stdin", "-S"], ["-xc-stdin", "-E"], ["-xc-stdin", "-c"], ["-###"], ["-###", "-c"], [], ["-###", "-static"], ["-###", "-shared", "-fPIC"], ["-###", "-L.", "-lm", "-Wl,--as-needed,-z,now", "-Xlinker", "--no-undefined", "-s"],
                ["-###", "-S", "-xc", "-idirafter", "test", "-I.", "-include", "stdbool.h"],
                ["-M", "-MT", "foo bar$x.o"], ["-MD", "-MP", "-MT", "a#b", "-S"], ["-MMD", "-c"], ["-M", "-MP"], ["-M", "-MQ", "x y$.o"], ["-MD", "-MT", "t1", "-MT", "t2", "-E"],
                ["-E", "-xc"], ["-S", "-x", "c"], ["-E", "-DX=a=b", "-DY=", "-UX", "-D", "Z(a,b)=a##b"], ["-S", "-idirafter", "test", "-fno-common"],
@@ -603,6 +603,10 @@ def gen_case(seed, src, own, tests, avail=None):
     else:
         path, mutated = r.pick(own), True
     opts = list(r.pick(OPTION_SETS))
+    if "-o-stdout" in opts and "-S" in opts and r.below(2) == 0:
+        # the output itself goes to descriptor 1: inputs that are rejected only by the code generator (`a + 1 = 2;`) belong here
+        path, mutated, aux = tests[0], False, None
+        gen_text = gen_typeexpr_file(r)
     ra = r.pick([1, 1, 2, 2, 3])
     rb = r.pick([1, 2, 2, 3, 3])
     if avail:
